@@ -117,12 +117,56 @@ def run(F, rep):
     rep.floor("C05-T1", spawn_loops, 2, "worker spawn sites")
     rep.floor("C05-T1", token_loops, 4, "sync-token push sites (pack boundary, sample boundary, sync_and_flush, finalize)")
 
-    # spawn closures pass their captured variables to the worker parameter of the same name
+    # spawn closures hand each worker parameter the shared object that the compressor keeps in the field of the
+    # same name (lock identities are field / parameter names: DESIGN 11.2).  Decided on provenance, not on the
+    # names of the locals in between: the captured value, with its clone() layers removed, must be the very
+    # expression stored in that field (constructor site) or a read of that field (later spawn sites).
     wparams = worker.arg_names()
+    sqc_adt = sqc.rstrip(":")
     nspawn_checked = 0
+
+    def root_of(f, exf, op, depth=0):
+        """the local (or self field) a value is a clone / copy / reborrow of"""
+        if op["k"] not in ("copy", "move") or depth > 12:
+            return None
+        pl = op["pl"]
+        names = [pr.get("n") for pr in pl["p"] if isinstance(pr, dict) and "f" in pr]
+        if names and f.arg_names().get(pl["l"]) == "self":
+            return ("field", names[0])
+        if [pr for pr in pl["p"] if pr != "deref"]:
+            return None
+        l = pl["l"]
+        ds = [d for d in exf.defs.get(l, []) if d[0] != "partial"]
+        if len(ds) != 1:
+            return ("local", l)
+        kind, bi, si, x = ds[0]
+        if kind == "rv":
+            if x["k"] == "use":
+                return root_of(f, exf, x["op"], depth + 1) or ("local", l)
+            if x["k"] in ("ref", "rawptr"):
+                return root_of(f, exf, {"k": "copy", "pl": x["pl"]}, depth + 1) or ("local", l)
+            return ("local", l)
+        if re.search(r"(^|::)clone$", x.get("callee", "")) and len(x["args"]) == 1:
+            return root_of(f, exf, x["args"][0], depth + 1) or ("local", l)
+        return ("local", l)
     for c in F.funcs.values():
         if c.kind == "closure" and worker.key in G.out.get(c.key, ()) and c.key.startswith(sqc):
             ex = Exprs(c)
+            parent = F.funcs.get(c.key.rsplit("::{closure", 1)[0])
+            exp_ = Exprs(parent) if parent else None
+            cap = None          # upvar index -> captured expression in the parent
+            fld = {}            # repr(expression) -> field name, from the `Self { .. }` aggregate of the parent
+            if parent:
+                for pb in parent.blocks:
+                    for s2 in pb["stmts"]:
+                        if s2["k"] == "assign" and s2["rv"]["k"] == "agg":
+                            rv = s2["rv"]
+                            if rv.get("ak") == "closure" and rv.get("closure") == c.key:
+                                cap = [root_of(parent, exp_, o) for o in rv["ops"]]
+                            elif rv.get("ak") == "adt" and rv.get("adt") == sqc_adt:
+                                for fname, o in zip(rv["fields"], rv["ops"]):
+                                    fld[root_of(parent, exp_, o)] = fname
+            upidx = {n: i for i, n in c.upvar_names().items()}
             for bi, t in c.calls():
                 if t["callee"] == worker.key:
                     nspawn_checked += 1
@@ -130,10 +174,19 @@ def run(F, rep):
                     for i, a in enumerate(t["args"]):
                         e = ex.operand(a)
                         want = wparams.get(i + 1)
-                        got = e[1] if isinstance(e, tuple) and e[0] in ("upvar", "var", "param") else fmt(e)
+                        if not (isinstance(e, tuple) and e[0] == "upvar" and cap is not None and e[1] in upidx):
+                            mism.append("%s<-%s (not a captured value)" % (want, fmt(e)))
+                            continue
+                        src = cap[upidx[e[1]]]
+                        if isinstance(src, tuple) and src[0] == "field":
+                            got = src[1]
+                        else:
+                            got = fld.get(src)
+                        if got is None:
+                            continue        # not one of the compressor's shared fields (worker id, config copy)
                         if got != want:
-                            mism.append("%s<-%s" % (want, got))
-                    rep.ob("C05-T4", "spawn closure %s passes same-named shared state to the worker" % c.key, not mism,
+                            mism.append("%s<-field %s" % (want, got))
+                    rep.ob("C05-T4", "spawn closure %s hands every worker parameter the compressor field of the same name" % c.key, not mism,
                            detail="mismatches: %s" % mism, site=site_of(c, t),
                            key="C05-T4 | %s | worker arguments by name" % c.key)
 
